@@ -2,6 +2,7 @@ package main
 
 import (
 	"fmt"
+	"os"
 	"runtime"
 	"sort"
 	"strconv"
@@ -73,6 +74,7 @@ type gsched struct {
 	TickStep   time.Duration
 	TickCond   func() bool // extra condition for the clock option; called with s.mu held
 	poison     bool
+	free       []func() // free-running mode: the thread bodies
 }
 
 // GateIf is a gate that is enabled only while cond holds.
@@ -146,6 +148,9 @@ func (s *gsched) checkPoison() {
 
 // adoptCurrent registers the calling goroutine as a named thread without parking it.
 func (s *gsched) adoptCurrent(name string) {
+	if freeRuns > 0 {
+		return
+	}
 	th := &gthread{name: name, resume: make(chan struct{}), bg: true}
 	s.mu.Lock()
 	s.byG[goid()] = th
@@ -153,8 +158,17 @@ func (s *gsched) adoptCurrent(name string) {
 	s.mu.Unlock()
 }
 
+// freeRuns > 0 (VERIF_FREERUN=n): the scenario bodies run n times with plain goroutines and no
+// scheduler at all - for the separate race-detector pass (racepass.sh). Under the cooperative
+// scheduler every hand-off is a happens-before edge, which blinds the detector; free-running,
+// it sees the accesses the schedule exploration assumes to be synchronised.
+var freeRuns = func() int { n, _ := strconv.Atoi(os.Getenv("VERIF_FREERUN")); return n }()
+
 func newSched() *gsched {
 	s := &gsched{byG: map[int]*gthread{}, BgLast: true, locks: map[any]*lockModel{}}
+	if freeRuns > 0 {
+		return s // no hooks: yields and lock hooks stay no-ops
+	}
 	verifhook.Set(s.yield)
 	verifhook.SetLock(s.lockHook)
 	return s
@@ -243,6 +257,10 @@ func (s *gsched) yield(label string) {
 func (s *gsched) Gate(label string) { s.yield(label) }
 
 func (s *gsched) spawn(name string, f func()) {
+	if freeRuns > 0 {
+		s.free = append(s.free, f)
+		return
+	}
 	th := &gthread{name: name, resume: make(chan struct{})}
 	s.mu.Lock()
 	s.threads = append(s.threads, th)
@@ -271,6 +289,21 @@ func (s *gsched) spawn(name string, f func()) {
 // run drives the threads to completion along ctx's choices. It returns false if
 // the harness threads cannot finish (deadlock) within maxSteps.
 func (s *gsched) run(c *mc.Ctx, maxSteps int) (ok bool, why string) {
+	if freeRuns > 0 {
+		done := make(chan struct{}, len(s.free))
+		for _, f := range s.free {
+			f := f
+			go func() { defer func() { done <- struct{}{} }(); f() }()
+		}
+		for range s.free {
+			select {
+			case <-done:
+			case <-time.After(10 * time.Minute): // virtual inside a bubble
+				return false, "free-running threads did not finish"
+			}
+		}
+		return true, ""
+	}
 	s.mu.Lock()
 	s.active = true
 	s.mu.Unlock()
